@@ -36,8 +36,11 @@ Definition check (c : case) : verdict :=
            end
   | Probe a b thr =>
       match equalise [a; b] with
-      (* [swap_hyps]: the executable premises of C05_p_swap_is_weight_ratio hold for this real pair *)
-      | [a'; b'] => of_bool (close thr (qmin1q (p_swap a' b')) && swap_hyps a' b')
+      (* [swap_hyps]: the executable premises of C05_p_swap_is_weight_ratio hold for this real pair
+         (pairs with a longitudinal field on one side only are outside that theorem — [compatible] asks for
+         equal has_long — and are decided by the probability comparison and the exact-Metropolis oracle alone) *)
+      | [a'; b'] => of_bool (close thr (qmin1q (p_swap a' b'))
+                             && (negb (Bool.eqb (has_long (rp_ham a')) (has_long (rp_ham b'))) || swap_hyps a' b'))
       | _ => VFail
       end
   end.
